@@ -726,22 +726,34 @@ Proof. destruct p; cbn; intros H; try exact I; apply wf_netb_WF, H. Qed.
 
 Lemma mixed_ok_supported : forall b s v fp e, g6 fixed_F6 (mixed_config b s v e) = true ->
   mixed_outcome b s v fp e = Ok -> Supported (mixed_config b s v e).
-Proof. intros b s v fp e G H. apply (outcome_ok_supported _ G), H. Qed.
+Proof.
+  intros b s v fp e G H. unfold mixed_outcome in H.
+  destruct (outcome (mixed_config b s v e)) eqn:O; cbn in H; try discriminate.
+  apply (outcome_ok_supported _ G), O.
+Qed.
 Lemma pop_ok_supported : forall b s v fp e, g6 fixed_F6 (pop_config b s v e) = true ->
   pop_outcome b s v fp e = Ok -> Supported (pop_config b s v e).
 Proof.
   intros b s v fp e G H. unfold pop_outcome in H.
   destruct (validate_backend_args (pop_config b s v e)); cbn in H; try discriminate.
-  destruct (backend_eqb b BFortran); [discriminate|]. apply (accepts_iff_supported _ G), H.
+  destruct (backend_eqb b BFortran); [|apply (accepts_iff_supported _ G), H].
+  destruct (entry_solver_check fixed_F6 (pop_config b s v e)); discriminate.
 Qed.
 Lemma pop_not_warn : forall b s v fp e, pop_outcome b s v fp e <> Warn.
 Proof.
   intros b s v fp e H. unfold pop_outcome in H.
   unfold validate_backend_args in H. destruct (vec _ && _); cbn in H; [discriminate|].
-  destruct (backend_eqb b BFortran); [discriminate|]. exact (accepts_not_warn _ H).
+  destruct (backend_eqb b BFortran); [|exact (accepts_not_warn _ H)].
+  unfold entry_solver_check, validate_solver in H. destruct (fixed_F6 && _); cbn in H; [|discriminate].
+  destruct (existsb _ _); discriminate.
 Qed.
 Lemma mixed_not_warn : forall b s v fp e, mixed_outcome b s v fp e <> Warn.
-Proof. intros b s v fp e H. exact (outcome_not_warn _ H). Qed.
+Proof.
+  intros b s v fp e H. unfold mixed_outcome in H.
+  destruct (outcome (mixed_config b s v e)) eqn:O; cbn in H; try discriminate.
+  - destruct (mixed_vec_crash b s v fp e); discriminate.
+  - exact (outcome_not_warn _ O).
+Qed.
 
 Lemma flat_probe_ok : forall k depth net p, WFnet net -> flat_probe_result k depth net p = Ok ->
   match k with HNodeValue => NodeValueTarget net p | _ => Path3 net p end.
